@@ -6,6 +6,7 @@
 static const char *CLS[] = { "other_coin_checksum_error", "same_coin_ok", "phrases_differ_in_word2_only", NULL };
 #define MAXS 8
 static rseed SEEDS[MAXS]; static int NS;
+static int KO_EXTREMAL = -1; static unsigned KO_C1;
 static int LANG_A_ALL[R_NLANG];     /* 1 = all A, 0 = 32 values of A */
 static unsigned A_SUBSET[32];
 
@@ -106,8 +107,20 @@ int main(int argc, char **argv) {
     }
     for (int i = 0; i < 32; i++) A_SUBSET[i] = (i < 11) ? (1u << i) : (i == 11 ? 0 : i == 12 ? 2047 : (unsigned)(prng(&ps) & 2047));
     for (int li = 0; li < R_NLANG; li++) LANG_A_ALL[li] = (li == 0) || (G_thorough && li < 8);
-    JOBS = malloc(sizeof(struct job) * NS * R_NLANG * 2048);
+    /* an extra seed for Korean: every data word and the check word among the longest decomposed words, so that the
+     * phrase has the maximal length for the coins that keep word 2 among them */
+    {
+        size_t mx = 0; unsigned set[R_NW]; int ns = 0;
+        for (unsigned i = 0; i < R_NW; i++) if (RL[2].wlen[i] > mx) mx = RL[2].wlen[i];
+        for (unsigned i = 0; i < R_NW; i++) if (RL[2].wlen[i] == mx && !(i & 1)) set[ns++] = i;
+        for (long attempt = 0; attempt < 400000 && ns > 1; attempt++) {
+            unsigned c[16]; for (int p = 1; p < 16; p++) c[p] = set[prng(&ps) % (unsigned)ns]; c[0] = 0; unsigned c0 = ref_eval(c);
+            if (RL[2].wlen[c0] == mx) { c[0] = c0; ref_from_coeffs(c, &SEEDS[NS]); KO_EXTREMAL = NS; KO_C1 = c[1]; NS++; break; }
+        }
+    }
+    JOBS = malloc(sizeof(struct job) * (NS + 1) * R_NLANG * 2048);
     for (int si = 0; si < NS; si++) for (int li = 0; li < R_NLANG; li++) {
+        if (si == KO_EXTREMAL) { if (li == 2) { size_t mx = 0; for (unsigned i = 0; i < R_NW; i++) if (RL[2].wlen[i] > mx) mx = RL[2].wlen[i]; for (unsigned A = 0; A < 2048; A++) if (RL[2].wlen[KO_C1 ^ A] == mx) JOBS[NJ++] = (struct job){ si, li, A }; } continue; }
         int all = LANG_A_ALL[li] && (li == 0 || si < 2);
         if (li >= 8 && si >= 2) continue;       /* Chinese (linear search): two seeds */
         if (all) for (unsigned A = 0; A < 2048; A++) JOBS[NJ++] = (struct job){ si, li, A };
